@@ -109,6 +109,11 @@ func checkErr(stage string, err error, issues *[]errIssue) {
 	if err == nil {
 		return
 	}
+	// an error is there to be printed: rendering it must not panic
+	if p := core.Protect(func() { _ = err.Error() }); p != "" {
+		*issues = append(*issues, errIssue{stage, "Error() of the returned error panicked"})
+		return
+	}
 	ge, ok := err.(*gobl.Error)
 	if !ok {
 		*issues = append(*issues, errIssue{stage, fmt.Sprintf("plain %T without a key", err)})
@@ -160,6 +165,12 @@ func pipeline(data []byte) (panics []panicRec, issues []errIssue, reached string
 // pipelineEntry: entry "" reads the input with gobl.Parse, "unmarshal" with
 // json.Unmarshal into a new(gobl.Envelope) (envelope inputs only).
 func pipelineEntry(data []byte, entry string) (panics []panicRec, issues []errIssue, reached string) {
+	return pipelineOpts(data, entry, false)
+}
+
+// pipelineOpts: light leaves out the stages a leaf value of the document does not reach (digest,
+// sign, verify, the second correction).
+func pipelineOpts(data []byte, entry string, light bool) (panics []panicRec, issues []errIssue, reached string) {
 	run := func(stage string, f func() error) {
 		var err error
 		site, msg, _ := core.ProtectSite(func() { err = f() })
@@ -227,7 +238,9 @@ func pipelineEntry(data []byte, entry string) (panics []panicRec, issues []errIs
 	if valid {
 		reached = "valid"
 	}
-	run("digest", func() error { _, err := env.Digest(); return err })
+	if !light {
+		run("digest", func() error { _, err := env.Digest(); return err })
+	}
 	run("marshal", func() error {
 		_, err := json.Marshal(env)
 		if err != nil {
@@ -235,17 +248,21 @@ func pipelineEntry(data []byte, entry string) (panics []panicRec, issues []errIs
 		}
 		return nil
 	})
-	run("sign", func() error { return env.Sign(key) })
-	run("verify", func() error { return env.Verify(key.Public()) })
-	run("verify", func() error { return env.Verify() })
+	if !light {
+		run("sign", func() error { return env.Sign(key) })
+		run("verify", func() error { return env.Verify(key.Public()) })
+		run("verify", func() error { return env.Verify() })
+	}
 	run("correct", func() error {
 		_, err := env.Correct(bill.Credit, bill.WithReason("r"))
 		return err
 	})
-	run("correct", func() error {
-		_, err := env.Correct(bill.WithData([]byte(`{"type":"corrective","stamps":[null],"ext":{"x":""}}`)))
-		return err
-	})
+	if !light {
+		run("correct", func() error {
+			_, err := env.Correct(bill.WithData([]byte(`{"type":"corrective","stamps":[null],"ext":{"x":""}}`)))
+			return err
+		})
+	}
 	run("replicate", func() error { _, err := env.Replicate(); return err })
 	if inv, ok := env.Extract().(*bill.Invoice); ok && inv != nil {
 		// bill-level operations return plain errors by design (not the envelope API)
@@ -818,6 +835,7 @@ func Run(c *core.Ctx) int {
 	cases = append(cases, newCases...)
 	cases = append(cases, nilArgCases(c, exs, bases)...)
 	cases = append(cases, cliInprocCases(c, exs, bases)...)
+	cases = append(cases, edgeCases(c, exs)...) // arithmetic edge values and formatter / template text on every leaf (edges.go)
 
 	c.Note("cases built after %.1fs: %d", time.Since(t0).Seconds(), len(cases))
 	// in-process
